@@ -63,6 +63,7 @@ def check_result(ctx, r):
 def run(ctx):
     rng = np.random.default_rng(ctx.seed)
     ctx.proof_layer(allowed_axioms=core.R_AX, coq_deps=["Corr/RunAccounting"])
+    core.note_drift(ctx, ANCHORS)
     cov = core.LineCoverage()
     lits = []
     with cov:
